@@ -49,7 +49,7 @@ def exp_date(y, m, d):
     return res
 
 
-def plan(tier, seed):
+def _plan(tier, seed):
     shards = []
     for y in YEARS:
         for half in range(2):
@@ -374,6 +374,9 @@ def run_today_real(shard, ctx):
 
 
 def run_shard(shard, ctx):
+    if isinstance(shard, dict) and 'mixed' in shard:
+        from ..mixed import run_mixed
+        return run_mixed(ctx, ID, shard['n'])
     if 'replay' in shard:
         c = shard['replay']
         from ..wbspec import dec
@@ -400,3 +403,8 @@ def finish(r, tier, seed):
             'exhaustive': False,
             'exhaustive_subspaces': (['DATE box 7 years x months -30..40 x days -400..500', 'EDATE/EOMONTH offsets -60..60 for 804 start dates']
                                      if tier == 'thorough' else [])}
+
+
+def plan(tier, seed):
+    # 'mixed': nests over the whole function set that use at least one function of this property (vf/mixed.py)
+    return _plan(tier, seed) + [{'mixed': k, 'n': 3 if tier == 'quick' else 60} for k in range(3 if tier == 'quick' else 8)]
